@@ -104,3 +104,10 @@ impl<K: Eq, V> Default for OrderMap<K, V> {
         Self::new()
     }
 }
+
+/// Read access to the FOLLOW_k set stored in a follow-cache entry (its fields are crate-private).
+pub fn cache_entry_follow_set(
+    entry: &crate::analysis::k_decision::CacheEntry,
+) -> crate::analysis::FollowSet {
+    entry.follow_set.clone()
+}
